@@ -183,11 +183,20 @@ type histGroup struct {
 	onA []Call
 }
 
-func histGroups(fs, rel bool, maxLen int) (groups []histGroup, pairs int) {
+func histGroups(fs, rel bool, maxLen int, wide bool) (groups []histGroup, pairs int) {
 	var bases []histBase
 	switch {
 	case !fs:
-		for _, b := range histLexBases {
+		lb := histLexBases
+		if wide {
+			lb = nil
+			for _, b := range xBasesShort {
+				if len(cutsOf(b)) > 0 {
+					lb = append(lb, b)
+				}
+			}
+		}
+		for _, b := range lb {
 			hb := histBase{fsBase: fsBase{Base: b}}
 			for _, a := range cutsOf(b) {
 				hb.Cuts = append(hb.Cuts, fsBase{Base: a})
@@ -219,8 +228,29 @@ func histGroups(fs, rel bool, maxLen int) (groups []histGroup, pairs int) {
 // batch <= 1: one history per group, back to back, each call twice. batch > 1: one history per
 // `batch` groups: all first calls, then all counterpart calls in a rotated order, then
 // everything once more.
-func histCases(groups []histGroup, rev bool, batch int) []Case {
+func histCases(groups []histGroup, rev bool, batch int, seed int64) []Case {
 	var out []Case
+	if batch < 0 {
+		// shuffled: all calls of -batch groups, each twice, in a seeded random order; rev only
+		// changes the seed
+		r := rand.New(rand.NewSource(seed*1000003 + 122949829 + int64(batch)))
+		if rev {
+			r = rand.New(rand.NewSource(seed*1000003 + 141650939 + int64(batch)))
+		}
+		n := -batch
+		for i := 0; i < len(groups); i += n {
+			var seq []Call
+			for _, g := range groups[i:min(i+n, len(groups))] {
+				seq = append(seq, g.onB, g.onB)
+				for _, a := range g.onA {
+					seq = append(seq, a, a)
+				}
+			}
+			r.Shuffle(len(seq), func(i, j int) { seq[i], seq[j] = seq[j], seq[i] })
+			out = append(out, Case{Mode: "hist", Seq: seq})
+		}
+		return out
+	}
 	if batch <= 1 {
 		for _, g := range groups {
 			var seq []Call
@@ -267,7 +297,7 @@ func histCases(groups []histGroup, rev bool, batch int) []Case {
 var splitSegs = []string{"a", "b", "..", "..", ".", "", "data", "SECRET", "x", "...", "a\\..", "..a"}
 
 // randSplitCase: one random string of segments, all its cuts asked in random order, each twice.
-func randSplitCase(r *rand.Rand) Case {
+func randSplitCase(r *rand.Rand, wide bool) Case {
 	for {
 		var sb strings.Builder
 		switch r.Intn(4) {
@@ -277,11 +307,18 @@ func randSplitCase(r *rand.Rand) Case {
 			sb.WriteString("./")
 		}
 		n := 3 + r.Intn(6)
+		if wide && r.Intn(10) == 0 {
+			n = 10 + r.Intn(30)
+		}
 		for i := 0; i < n; i++ {
 			if i > 0 {
 				sb.WriteString("/")
 			}
-			sb.WriteString(splitSegs[r.Intn(len(splitSegs))])
+			if wide && r.Intn(3) == 0 {
+				sb.WriteString(pick(r)) // the large pool: blanks, percent forms, backslashes, Unicode
+			} else {
+				sb.WriteString(splitSegs[r.Intn(len(splitSegs))])
+			}
 		}
 		s := sb.String()
 		cuts := cutsOf(s)
